@@ -79,6 +79,8 @@ def real_model(fs, o):
     conds = set()
     for name, mod, fil, expr, cname in o["conds"]:
         src = marker_file(fs, expr.replace(" ", "").split("<")[-1])
+        if src == "?100":          # a body that does not say which file wrote it (pool files 24 / 25)
+            src = fil
         conds.add((name, mod, fil, src, cname))
     return types, rels, conds, via_bad
 
@@ -317,10 +319,10 @@ def run(pid, tier):
 def run_into(chk, pid, binary, sc, tier):
     if True:
         kf = replay_findings(pid, binary, sc)
-        pool = "<<1,2,3,4,5,6,7,8,9,10,11,12,13,14,15,16,17,18,19,20,21,22,23>>"
+        pool = "<<1,2,3,4,5,6,7,8,9,10,11,12,13,14,15,16,17,18,19,20,21,22,23,24,25>>"
         maxfiles = 3 if tier == "quick" else 4
         if tier == "thorough":
-            pool = "<<1,2,3,4,5,6,7,8,10,11,12,13,15,16,18,19,20,22,23>>"
+            pool = "<<1,2,3,4,5,6,7,8,10,11,12,13,16,18,19,20,22,23,24,25>>"
         cfg = CFG % {"setat": "MCSetAt", "numsets": "MCNumSets", "devs": DEVS_CURRENT, "extra": "  MaxFiles = %d\n  PoolSeq <- PoolSeqV" % maxfiles}
         res = run_tlc("MergeMC", cfg, sc, cache=True, timeout=3000, defs="PoolSeqV == " + pool)
         if res.violated:
